@@ -5,6 +5,7 @@ simpath    path under simfs.SIM_ROOT, resolved by SimFS through the process-wide
 bytesio    io.BytesIO
 realpath   real file in a per-world temp directory, given as str or pathlib.Path
 realfile   real buffered file object (io.BufferedReader) on that file
+gzipfile   gzip.open() on a compressed copy: a seekable reader whose fileno() belongs to another (shorter) file
 rawfile    real unbuffered file object (io.FileIO, open(..., buffering=0)): read(n) may legitimately return fewer bytes
 """
 import contextlib
@@ -18,7 +19,7 @@ from .simfs import SimFS, SIM_ROOT
 from . import lib
 
 SIM_BACKENDS = ['simstream', 'simpath', 'bytesio']
-REAL_BACKENDS = ['realpath', 'realfile', 'rawfile']
+REAL_BACKENDS = ['realpath', 'realfile', 'rawfile', 'gzipfile']
 ALL_BACKENDS = SIM_BACKENDS + REAL_BACKENDS
 
 
@@ -62,6 +63,14 @@ class Store(object):
                 f.write(self.fs.get(name))
         if backend == 'realpath':
             return pathlib.Path(path) if as_pathlib else path
+        if backend == 'gzipfile':
+            import gzip
+            gz = path + '.gz'
+            with gzip.open(gz, 'wb', compresslevel=1) as f:
+                f.write(self.fs.get(name))
+            f = gzip.open(gz, 'rb')
+            self._open_real.append(f)
+            return f
         if backend in ('realfile', 'rawfile'):
             f = open(path, 'rb') if backend == 'realfile' else open(path, 'rb', buffering=0)
             self._open_real.append(f)
